@@ -56,8 +56,15 @@ def r3_lp_question(ctx):
             ok = not lits
         (ctx.ok if ok else ctx.bad)('C03.R3', 'AffTree::polyhedral_path_characterization#intersection', 'returns intersection_n(in_dim, one half-space per path entry)' if ok else
                                     'the path polytope does not intersect one half-space per path entry', b.span)
+    lp_encoding(ctx, 'C03.R3')
+
+
+def lp_encoding(ctx, rule):
+    """min c^T x s.t. A x <= b with free variables; status() = zero objective; solve_linprog solves exactly that encoding (shared with C10.R1)."""
+    from ..mir import Resolver, fmt, literals, walk, strip_sites as s
+    from .prune import is_call
     # (c) LP encoding
-    b = ctx.body('C03.R3', 'AffFuncBase::as_linprog')
+    b = ctx.body(rule, 'AffFuncBase::as_linprog')
     if b is not None:
         R = Resolver(b)
         new = [(bb, R.call_args(bb)) for bb, t in b.calls_to('Problem::new')]
@@ -86,21 +93,21 @@ def r3_lp_question(ctx):
                 problems.append('constraints are not "row i · vars <= bias i" for every row (op=%s rhs/row=%s coeffs=%s unconditional=%s)' % (fmt(a[2]), okc, coeffs_ok, uncond))
         if problems:
             for p_ in problems:
-                ctx.bad('C03.R3', 'AffFuncBase::as_linprog#encoding', p_, b.span)
+                ctx.bad(rule, 'AffFuncBase::as_linprog#encoding', p_, b.span)
         else:
-            ctx.ok('C03.R3', 'AffFuncBase::as_linprog#encoding', 'min c^T x  s.t.  A x <= b (one Le row per constraint, coefficients zipped with the variables in order), x free', b.span)
-    b = ctx.body('C03.R3', 'AffFuncBase::status')
+            ctx.ok(rule, 'AffFuncBase::as_linprog#encoding', 'min c^T x  s.t.  A x <= b (one Le row per constraint, coefficients zipped with the variables in order), x free', b.span)
+    b = ctx.body(rule, 'AffFuncBase::status')
     if b is not None:
         R = Resolver(b)
         rets = [e for _, e in R.return_expr()]
         ok = len(rets) == 1 and is_call(rets[0], 'AffFuncBase::solve_linprog') and rets[0][2][0] == ('param', 'self') and is_call(rets[0][2][1], 'ArrayBase::zeros')
-        (ctx.ok if ok else ctx.bad)('C03.R3', 'AffFuncBase::status#objective', 'feasibility = LP of self with the zero objective' if ok else 'status() does not solve self with a zero objective', b.span)
-    b = ctx.body('C03.R3', 'AffFuncBase::solve_linprog')
+        (ctx.ok if ok else ctx.bad)(rule, 'AffFuncBase::status#objective', 'feasibility = LP of self with the zero objective' if ok else 'status() does not solve self with a zero objective', b.span)
+    b = ctx.body(rule, 'AffFuncBase::solve_linprog')
     if b is not None:
         R = Resolver(b)
         al = [(bb, R.call_args(bb)) for bb, t in b.calls_to('AffFuncBase::as_linprog')]
         ok = len(al) == 1 and al[0][1][0] == ('param', 'self') and al[0][1][1] == ('param', 'coeffs')
-        (ctx.ok if ok else ctx.bad)('C03.R3', 'AffFuncBase::solve_linprog#problem', 'solves as_linprog(self, coeffs)' if ok else 'solve_linprog does not solve the encoding of self with the given objective', b.span)
+        (ctx.ok if ok else ctx.bad)(rule, 'AffFuncBase::solve_linprog#problem', 'solves as_linprog(self, coeffs)' if ok else 'solve_linprog does not solve the encoding of self with the given objective', b.span)
 
 
 def r4_skips(ctx):
